@@ -51,6 +51,8 @@ def knobs_of(shape, idx, tier, rng):
         "ops": 4 if k >= 5 else 1,
         "inst_copy": idx % 5 == 3,
         "first_rot": [0, 0, 0, 1, -1][idx % 5] if pc == 0 else 0,
+        "inst_rot": [0, 1, -1, 0, 2, -2][idx % 6],
+        "tbl_nozero": idx % 4 == 2,
     }
 
 
